@@ -165,18 +165,18 @@ class _LCOp(_Backend):
         keys = set(sa) | set(sb) | set(r.lc)
         if self.op in ("__add__", "__sub__"):
             sgn = 1 if self.op == "__add__" else -1
-            d["V.coefficients"] = And(*[co(r.lc, k) == co(sa, k) + sgn * co(sb, k) for k in keys]) if keys else True
+            d["V.coefficients"] = And(*[modeq(co(r.lc, k), co(sa, k) + sgn * co(sb, k), self.prime) for k in keys]) if keys else True
             d["V.support"] = set(r.lc) <= set(sa) | set(sb)
             d["F.operands_unchanged"] = (list(a.lc.items()) == list(sa.items()) and list(b.lc.items()) == list(sb.items())
                                          and all(a.lc[k] is sa[k] for k in sa) and all(b.lc[k] is sb[k] for k in sb))
             d["F.fresh_result"] = r is not a and r is not b and r.lc is not a.lc and r.lc is not b.lc
         elif self.op == "__mul__":
-            d["V.coefficients"] = And(*[co(r.lc, k) == imul(co(sa, k), term(b)) for k in keys]) if keys else True
+            d["V.coefficients"] = And(*[modeq(co(r.lc, k), imul(co(sa, k), term(b)), self.prime) for k in keys]) if keys else True
             d["V.support"] = set(r.lc) == set(sa)
             d["F.operands_unchanged"] = list(a.lc.items()) == list(sa.items()) and all(a.lc[k] is sa[k] for k in sa)
             d["F.fresh_result"] = r is not a and r.lc is not a.lc
         else:
-            d["V.coefficients"] = And(*[co(r.lc, k) == -co(sa, k) for k in keys]) if keys else True
+            d["V.coefficients"] = And(*[modeq(co(r.lc, k), -co(sa, k), self.prime) for k in keys]) if keys else True
             d["V.support"] = set(r.lc) == set(sa)
             d["F.operands_unchanged"] = list(a.lc.items()) == list(sa.items()) and all(a.lc[k] is sa[k] for k in sa)
             d["F.fresh_result"] = r is not a and r.lc is not a.lc
@@ -194,19 +194,19 @@ class _LCOp(_Backend):
         sel = z3.Select
         if self.op in ("__add__", "__sub__"):
             sgn = 1 if self.op == "__add__" else -1
-            d["V.coefficients"] = r.lc.coef(k) == a.lc.coef(k) + sgn * b.lc.coef(k)
+            d["V.coefficients"] = modeq(r.lc.coef(k), a.lc.coef(k) + sgn * b.lc.coef(k), self.prime)
             d["V.support"] = Implies(sel(r.lc.dom, k), Or(sel(a.lc.dom, k), sel(b.lc.dom, k)))
             d["F.operands_unchanged"] = a.lc.unchanged() and b.lc.unchanged()
             d["F.fresh_result"] = r is not a and r is not b and r.lc is not a.lc and r.lc is not b.lc
-            d["canary.V.coefficients"] = r.lc.coef(k) == a.lc.coef(k)
+            d["canary.V.coefficients"] = modeq(r.lc.coef(k), a.lc.coef(k), self.prime)
         elif self.op == "__mul__":
             d["V.coefficients"] = And(sel(r.lc.dom, k) == sel(a.lc.dom, k),
-                                      Implies(sel(a.lc.dom, k), sel(r.lc.val, k) == imul(sel(a.lc.val, k), term(b))))
+                                      Implies(sel(a.lc.dom, k), modeq(sel(r.lc.val, k), imul(sel(a.lc.val, k), term(b)), self.prime)))
             d["F.operands_unchanged"] = a.lc.unchanged()
             d["F.fresh_result"] = r is not a and r.lc is not a.lc
         else:
             d["V.coefficients"] = And(sel(r.lc.dom, k) == sel(a.lc.dom, k),
-                                      Implies(sel(a.lc.dom, k), sel(r.lc.val, k) == -sel(a.lc.val, k)))
+                                      Implies(sel(a.lc.dom, k), modeq(sel(r.lc.val, k), -sel(a.lc.val, k), self.prime)))
             d["F.operands_unchanged"] = a.lc.unchanged()
             d["F.fresh_result"] = r is not a and r.lc is not a.lc
         return d
